@@ -5,6 +5,7 @@ package props
 
 import (
 	"fmt"
+	"math/rand/v2"
 	"runtime/debug"
 	"sort"
 	"strings"
@@ -233,6 +234,35 @@ func sleepMs(n int) { time.Sleep(time.Duration(n) * time.Millisecond) }
 // natively typed Go integers (documents built in Go rather than decoded from
 // JSON carry them); fractional values stay float64. The reference model keeps
 // working on the float64 image, which denotes the same numbers.
+// nativizeMixed gives every row's whole number a Go type of its own (or leaves
+// it a float64): equal numbers meet under different types within one column.
+func nativizeMixed(r0 *rand.Rand, rows []any, col string) {
+	for _, r := range rows {
+		m, ok := r.(map[string]any)
+		if !ok {
+			continue
+		}
+		f, ok := m[col].(float64)
+		if !ok || f != float64(int64(f)) || f > 1e9 || f < -1e9 {
+			continue
+		}
+		switch r0.IntN(6) {
+		case 0:
+			m[col] = int(f)
+		case 1:
+			m[col] = int64(f)
+		case 2:
+			m[col] = int32(f)
+		case 3:
+			if f >= 0 {
+				m[col] = uint(f)
+			}
+		case 4:
+			m[col] = float32(f)
+		}
+	}
+}
+
 func nativize(c *fw.Case, rows []any, col string) {
 	kind := c.Intn(11)
 	for _, r := range rows {
